@@ -18,7 +18,7 @@ EXPLANATION = (
 ASSUMPTIONS = ["pika::detail::throws_if returns normally when the caller passed its own error_code",
                "util::yield_while(f) returns only when f() returned false"]
 THOROUGH_CONFIGS = [["-UNDEBUG", "-DPIKA_DEBUG"]]
-FLOORS = {"C19.R1": 6, "C19.R2": 5, "C19.R3": 3, "C19.R4": 9, "C19.R5": 3}
+FLOORS = {"C19.R1": 6, "C19.R2": 5, "C19.R3": 4, "C19.R4": 9, "C19.R5": 3}
 
 POOL = r"^pika::threads::detail::scheduled_thread_pool::"
 STATE_CHANGERS = {"suspend_internal", "suspend_processing_unit_internal", "resume_internal", "resume_processing_unit_direct",
@@ -189,6 +189,16 @@ def run(rep, tier):
         else:
             rep.bad("C19.R3", fn, loc_of(ev), "suspend-cond", "worker goes to sleep without %s: queued work can be stranded on a sleeping worker"
                     % [k for k, v in need.items() if not v], path=[{"block": x} for x in block_path(fn, b)])
+        # ... and under nothing more that other tasks control: a PU in pre_sleep has to reach 'sleeping' as soon as its
+        # queues are drained, even while blocked (suspended) tasks are homed on it - they may be released only after the
+        # suspend_processing_unit call that is waiting for 'sleeping' has returned
+        extra = sorted(a for a, t in fb if "thread_schedule_state::suspended" in a or ("get_thread_count(" in a and "suspended" in a))
+        if extra:
+            rep.bad("C19.R3", fn, loc_of(ev), "suspend-needs-no-blocked-tasks", "the worker moves from pre_sleep to sleeping only while no suspended (blocked) task is registered on it (%s): "
+                    "suspend_processing_unit waits for 'sleeping' and never returns when a task blocked on that PU is released by the caller afterwards; the PU stays in pre_sleep" % extra[0][:120],
+                    path=[{"block": x} for x in block_path(fn, b)])
+        else:
+            rep.ok("C19.R3", fn, "going to sleep does not depend on the number of blocked tasks homed on the PU")
         run_init = local_init(fn, "running")
         gnt = [(bb, ii, e2) for bb, ii, e2 in fn.all_events() if e2.get("k") == "call" and callee_short(e2) == "get_next_thread"]
         if run_init is None or not gnt:
